@@ -292,27 +292,41 @@ def early_checks_rules(prog, an, rep):
                   detail=str(sorted(map(str, got))))
     # producer / consumer tests on the right names, both needed to return
     R2 = 'C12.MPT.foreign'
-    for fn, attr in ((BR + '.is_cascade_producer', 'src_branch'),
-                     (BR + '.is_cascade_consumer', 'dst_branch')):
-        spec = Spec.func(fn)
+    bf = Spec.func(BR + '.branch_factory')
+    for flag, attr in (('cascade_producer', 'src_branch'),
+                       ('cascade_consumer', 'dst_branch')):
+        fn = 'is_' + flag
 
-        def has(e, spec=spec):
-            return any(isinstance(x, ast.Call) and
-                       an.call_matches(f, x, spec) for x in ast.walk(e))
+        def classified(e, flag=flag):
+            """The name classified when e is branch_factory(., name).flag
+            (directly or through a local bound to the classified branch)."""
+            if isinstance(e, ast.Attribute) and e.attr == flag:
+                v = substitute_locals(f, e.value)
+                if isinstance(v, ast.Call) and \
+                        an.call_matches(f, v, bf) and len(v.args) == 2:
+                    return v.args[1]
+            return None
+
+        def has(e, flag=flag):
+            return any(classified(x) is not None for x in ast.walk(e))
         tb = an.branch_nodes(f, has, True)
         rep.evaluated()
         ok, path = c.must_pass(tb, c.exit, use_exc=False)
         rep.check(ok and bool(tb), R2, '%s: returns only if %s holds' % (
-            f.qname, fn.rpartition('.')[2]), f.where(),
+            f.qname, fn), f.where(),
             'early_checks can return normally without %s being true' %
-            fn.rpartition('.')[2], path=c.describe_path(path))
-        for call in an.direct_calls(f, spec):
-            a = src(substitute_locals(f, call.args[0])) if call.args else ''
-            rep.check(a.endswith('pull_request.' + attr), 'C12.ARG.foreign',
-                      '%s: %s applied to the PR %s' % (
-                          f.qname, fn.rpartition('.')[2], attr),
-                      f.where(call), '%s is applied to %s' % (
-                          fn.rpartition('.')[2], a), detail=a)
+            fn, path=c.describe_path(path))
+        for t in an.test_nodes(f, has):
+            for x in ast.walk(t.ast):
+                nm = classified(x)
+                if nm is None:
+                    continue
+                a = src(substitute_locals(f, nm))
+                rep.check(a.endswith('pull_request.' + attr),
+                          'C12.ARG.foreign',
+                          '%s: %s applied to the PR %s' % (f.qname, fn, attr),
+                          f.where(t), '%s is applied to %s' % (fn, a),
+                          detail=a)
         # the false edge raises a silent exception
         fb = an.branch_nodes(f, has, False)
         for b in fb:
@@ -374,19 +388,6 @@ def class_flags(prog, an, rep):
                           'a branch kind Bert-E must not handle is accepted'
                           if v else 'a handled branch kind is refused'))
     rep.floor('C12 GWFBranch classes', n, 12)
-    for fn, flag in ((BR + '.is_cascade_producer', 'cascade_producer'),
-                     (BR + '.is_cascade_consumer', 'cascade_consumer')):
-        f = need_func(an, fn)
-        rets = [x for x in walk_local(f.node, include_root=False)
-                if isinstance(x, ast.Return) and x.value is not None]
-        ok = len(rets) == 1 and isinstance(rets[0].value, ast.Attribute) \
-            and rets[0].value.attr == flag and \
-            isinstance(rets[0].value.value, ast.Call) and \
-            an.call_matches(f, rets[0].value.value,
-                            Spec.func(BR + '.branch_factory'))
-        rep.check(ok, R, f.qname + ' reads ' + flag + ' of the classified '
-                  'name', f.where(), '%s no longer returns branch_factory('
-                  'name).%s' % (f.name, flag))
 
 
 def dependencies_rules(prog, an, rep):
